@@ -477,14 +477,14 @@ package larking
 
 //@ func (*path).search serves C01 C02 C09
 //@   returns (m, ps, err)
-//@   requires p != nil && TrieWf()
+//@   requires p != nil && TrieWf() && TrieOk()
 //@   requires len(toks) == 0 || (Shape(toks) && toks[0].typ != tokenPath)
 //@   modifies E$param
 //@   witness verifWitnessRouting
 //@   decreases len(toks)
 //@   assume at "return m, nil, nil" m != nil && len(m.vars) == gf(p, "depth")
 //@   assume at "return m, nil, nil" #2 len(m#2.vars) == gf(p, "depth")
-//@   assume at "if m, ps, err := next.search(toks[2:], verb); err == nil {" next != nil && gf(next, "depth") == gf(p, "depth")
+//@   assume at "if m, ps, err := next.search(toks[2:], verb); err == nil {" gf(next, "depth") == gf(p, "depth")
 //@   assert at "if next, ok := p.segments[segment]; ok {" [edge-key C01] len(segment) == len(toks[0].val) + len(toks[1].val)
 //@        && segment[0] == toks[0].val[0] && (forall k :: 0 <= k && k < len(toks[1].val) ==> segment[len(toks[0].val) + k] == toks[1].val[k])
 //@   assert at "l := v.index(toks[1:]) + 1" [slash-guard C01] toks[0].typ == tokenSlash
@@ -494,7 +494,7 @@ package larking
 
 //@ func (*path).match serves C01 C02 C09
 //@   returns (m, ps, err)
-//@   requires p != nil && TrieWf()
+//@   requires p != nil && TrieWf() && TrieOk()
 //@   modifies F$lexer, E$token, E$param, G$gfa.st
 //@   ensures [found] err == nil ==> m != nil && len(m.vars) == gf(p, "depth") + len(ps)
 
@@ -944,7 +944,7 @@ package larking
 
 //@ func (*state).match serves C01 C09
 //@   returns (m, ps, err)
-//@   requires TrieWf() && (s != nil ==> s.path != nil)
+//@   requires TrieWf() && TrieOk() && (s != nil ==> s.path != nil)
 //@   modifies F$lexer, E$token, E$param, G$gfa.st
 //@   ensures [nil-state-routes-nothing C11] s == nil ==> err != nil
 //@   ensures [found] err == nil ==> m != nil
